@@ -191,6 +191,10 @@ impl Duration {
     pub fn subsec_millis(&self) -> (r: u32) ensures r == self.nanos / 1_000_000 { unimplemented!() }
     #[verifier::external_body]
     pub fn is_zero(&self) -> (r: bool) ensures r == (self.total() == 0) { unimplemented!() }
+    #[verifier::external_body]
+    pub fn from_millis(ms: u64) -> (r: Duration) ensures r.secs == ms / 1000, r.nanos == (ms % 1000) * 1_000_000, r.total() == ms as int * 1_000_000 { unimplemented!() }
+    #[verifier::external_body]
+    pub fn from_secs(s: u64) -> (r: Duration) ensures r.secs == s, r.nanos == 0 { unimplemented!() }
 }
 
 #[derive(Clone, Copy)]
